@@ -18,6 +18,7 @@ RULE = (
     "model, the specification and (await/del histories) functools.cached_property. non-trivial = at least one getter run and one "
     "await finished; distinct by case content"
 )
+AMPLIFY = "search"   # on a source change: quick cases + the failing-input search (the thorough generator is minutes / GBs)
 EXHAUSTIVE = {"quick": True, "thorough": True}
 SCOPE = {
     "quick": "all schedules of length <=7 (2 tasks) / <=6 (3 tasks), susp 1-2, lock/no lock; one del or late spawn anywhere in "
